@@ -40,10 +40,13 @@ where
                 });
             }
         } else {
-            if let Some(i) = graph
-                .next_edge_to(storage, current_index.index)
-                .ok()
-                .filter(|i| i.is_valid())
+            // An edge at distance 0 is the search origin. Its sibling
+            // edges are not reachable from it.
+            if current_index.distance != 0
+                && let Some(i) = graph
+                    .next_edge_to(storage, current_index.index)
+                    .ok()
+                    .filter(|i| i.is_valid())
             {
                 self.stack.push(SearchIndex {
                     index: i,
